@@ -765,6 +765,8 @@ class PackageGen:
         enums = [t for t in self.pool if isinstance(self.structural(t), tuple) and self.structural(t)[0] == "enum" and t.ns is None]
         if enums and r.chance(0.2):
             return r.choice(enums)
+        if self.cfg.time_types and r.fork("timearr", len(self.pool)).chance(0.15):
+            return Prim(r.fork("timearr2", len(self.pool)).choice(TIME_PRIMS))      # arrays of dates / times / datetimes
         return self.gen_prim(numeric_only=True)
 
     def gen_type(self, depth: int, params=(), allow_param=True) -> Type:
